@@ -102,6 +102,7 @@ type PkgInfo struct {
 var Helpers = []PkgInfo{
 	{Key: "alpha", Rel: "helpers/alpha", Name: "alpha"},
 	{Key: "alphb", Rel: "helpers/other/alpha", Name: "alpha"}, // same name, different path
+	{Key: "alphc", Rel: "helpers/third/alpha", Name: "alpha"}, // a third one: the second alias must be reserved too
 	{Key: "httpx", Rel: "helpers/weird", Name: "http"},        // name != dir, same name as net/http
 	{Key: "syncp", Rel: "helpers/sync", Name: "sync"},         // same name as a package the matryer template imports
 	{Key: "fmtp", Rel: "helpers/fmt", Name: "fmt"},
